@@ -125,7 +125,10 @@ def meta_universe(g: Gen, n=40):
            # values whose CPython hashes collide (hash(-1) == hash(-2), hash(0) == hash(2**61 - 1)): distinct metadata
            Metadata(details={"a": -1}), Metadata(details={"a": -2}), Metadata(details={"a": -1.0}), Metadata(details={"a": -2.0}),
            Metadata(loss_details={"a": -1}), Metadata(loss_details={"a": -2}), Metadata(per_occurrence_limit=-2),
-           Metadata(details={"a": 0}), Metadata(details={"a": 2**61 - 1})]
+           Metadata(details={"a": 0}), Metadata(details={"a": 2**61 - 1}),
+           # integers beyond 2**53: distinct as ints, equal after a conversion to float
+           Metadata(per_occurrence_limit=2**53), Metadata(per_occurrence_limit=2**53 + 1), Metadata(per_occurrence_limit=10**17 + 3),
+           Metadata(per_occurrence_limit=10**17 + 5), Metadata(details={"a": 2**53}), Metadata(details={"a": 2**53 + 1})]
     return ms[: max(n, len(ms))]
 
 
@@ -517,6 +520,7 @@ def run(ctx):
                (dict(country=None), dict(country="")), (dict(details={"k": None}), dict()),
                (dict(details={"layer": -1}), dict(details={"layer": -2})), (dict(loss_details={"layer": -1.0}), dict(loss_details={"layer": -2.0})),
                (dict(per_occurrence_limit=-1), dict(per_occurrence_limit=-2)), (dict(details={"n": 0}), dict(details={"n": 2**61 - 1})),
+               (dict(per_occurrence_limit=2**53), dict(per_occurrence_limit=2**53 + 1)), (dict(details={"n": 10**17 + 3}), dict(details={"n": 10**17 + 5})),
                (dict(details={"a": 1, "b": 2}, loss_details={"a": 1}), dict(details={"a": 1}, loss_details={"a": 1, "b": 2}))]
     for i in range(60 if ctx.quick else 600):
         fam = ["A-respelled", "B-flatten-alike", "D-datetime-coords", "J-semi-monthly", "C-far-dates"][i % 5]
@@ -608,6 +612,67 @@ def run(ctx):
                 break
         if base is not None and len(cells) >= 2:
             ctx.nontriv(base[0])
+    # large multisets (hundreds to thousands of cells, many slices, many distinct detail values): size-triggered fast
+    # paths, chunked / vectorised sorts and bounded caches only engage here; judged by the Python-side oracles only
+    for i in range(6 if ctx.quick else 30):
+        ns = g.r.choice([2, 9, 17, 40])
+        cells, info = g.cells(n_slices=min(ns, 4), n_periods=g.r.randint(8, 14), n_lags=g.r.randint(8, 14), values="int",
+                              layout=g.r.choice(["regular", "ragged"]))
+        if ns > 4:      # many more slices: re-tag copies of the cells with distinct details
+            from bermuda import Metadata as _M2
+
+            base_cells, cells = cells, []
+            for k in range(ns):
+                for c in base_cells[: max(20, 1200 // ns)]:
+                    m = c.metadata
+                    cells.append(_rebuild(c, metadata=_M2(risk_basis=m.risk_basis, country=m.country, currency=m.currency,
+                                                           reinsurance_basis=m.reinsurance_basis, loss_definition=m.loss_definition,
+                                                           per_occurrence_limit=m.per_occurrence_limit,
+                                                           details={**m.details, "tag": k if k % 3 else float(k), "name": "s%03d" % (ns - k)},
+                                                           loss_details=dict(m.loss_details))))
+        if i % 3 == 2:
+            # incremental: monthly increments plus catch-up increments that END at the same evaluation date
+            # (same period and evaluation date, another prev_evaluation_date) -- the last component of the order
+            from bermuda import IncrementalCell as _IncL
+
+            cells = []
+            for m in g.metas(2, "loss_details")[0]:
+                for yy in range(2000, 2000 + g.r.choice([9, 26])):
+                    ps, pe = datetime.date(yy, 1, 1), datetime.date(yy, 12, 31)
+                    evs = [pe + datetime.timedelta(days=30 * k) for k in range(1, 24)]
+                    prev = ps - datetime.timedelta(days=1)
+                    for k, ev in enumerate(evs):
+                        cells.append(_IncL(period_start=ps, period_end=pe, prev_evaluation_date=prev, evaluation_date=ev,
+                                           values={"paid_loss": k}, metadata=m))
+                        if k >= 2:
+                            cells.append(_IncL(period_start=ps, period_end=pe, prev_evaluation_date=evs[k - 2], evaluation_date=ev,
+                                               values={"paid_loss": -k}, metadata=m))
+                        prev = ev
+        ctx.hist("layout:large(%d+ cells)" % (100 * (len(cells) // 100)))
+        base = None
+        for p in range(3):
+            perm = cells[:]
+            g.r.shuffle(perm)
+            try:
+                t = Triangle(perm if p else iter(perm))
+            except Exception as ex:  # noqa: BLE001
+                fails.append(("constructor-raised", repr(ex), perm[:40], None, "list"))
+                break
+            ctx.count(evaluations=1, traces=1)
+            seq = strict_seq(t)
+            if base is None:
+                base = (seq, perm)
+                probs = canonical_violations(t)
+                if not probs and len(t) != len(cells):
+                    probs = [f"{len(cells)} cells supplied, {len(t)} kept"]
+                if probs:
+                    fails.append(("not-canonical", probs, perm, None, "list"))
+                    break
+            elif seq != base[0]:
+                fails.append(("order-depends-on-input", "list vs list (large multiset)", base[1], perm, "list"))
+                break
+        if base is not None:
+            ctx.nontriv(("large", len(cells), base[0][:3]))
     # multisets with exact duplicates: every supplied cell is kept (a Triangle is built from a multiset)
     for i in range(40 if ctx.quick else 400):
         cells, info = g.cells(n_periods=g.r.randint(1, 3), n_lags=g.r.randint(1, 3), values=g.r.choice(["int", "float"]))
@@ -646,6 +711,16 @@ def run(ctx):
         if prob:
             seq_fail = (trace, prob, t)
             break
+    # long chains (25-40 operations): state that only goes wrong after many steps
+    if seq_fail is None:
+        for i in range(6 if ctx.quick else 40):
+            t, info = g.triangle(n_periods=g.r.randint(2, 4), n_lags=g.r.randint(2, 4), values=g.r.choice(["int", "float"]))
+            trace, prob = op_sequence(ctx, g, t, g.r.randint(25, 40))
+            ctx.count(evaluations=len(trace), traces=1)
+            ctx.hist("op:long-chain")
+            if prob:
+                seq_fail = (trace, prob, t)
+                break
     # directed: every argument-free / fixed-argument operation once on multi-slice triangles whose slices differ in
     # details (operand must stay the triangle it was, result canonical) -- independent of the random chains' luck
     if seq_fail is None:
@@ -667,6 +742,23 @@ def run(ctx):
                 if prob:
                     seq_fail = (trace, prob, t)
                     break
+            if seq_fail:
+                break
+            # the same with one restated cell (same coordinates twice, other values) in a cumulative triangle
+            t0, info = g.triangle(n_slices=g.r.randint(1, 2), basis="cum", n_periods=g.r.randint(1, 3), n_lags=g.r.randint(2, 3),
+                                  values=g.r.choice(["int", "float"]), layout="regular")
+            if len(t0):
+                c0 = g.r.choice(list(t0.cells))
+                tr = Triangle(list(t0.cells) + [c0.replace(values={k: (v + 1 if isinstance(v, (int, float)) and not isinstance(v, bool) else v)
+                                                                 for k, v in c0.values.items()})])
+                for op in ["to_incremental", "to_cumulative", "summarize", "aggregate", "right_edge", "merge", "coalesce",
+                           "json_roundtrip", "binary_roundtrip", "select", "derive_fields"]:
+                    trace, prob = op_sequence(ctx, g, tr, 1, forced=[op])
+                    ctx.count(evaluations=1, traces=1)
+                    ctx.hist("op:directed-on-restated-cell")
+                    if prob:
+                        seq_fail = (trace, prob, tr)
+                        break
             if seq_fail:
                 break
     # directed: positional slicing with every kind of step, followed by filter / clip
